@@ -153,6 +153,40 @@ fn states_case<T: Sc>(rng: &mut Rng, case: u64, out: &mut CaseOut) {
     }
 }
 
+/// builder-made models over position-coded closures (arity 1..10, arbitrary ordered subsets of the model
+/// parameters, derivatives supplied in random order, invariant functions anywhere) inside problems: the
+/// Jacobian must be built from exactly the D_k that the specification defines
+fn coded_case<T: Sc>(rng: &mut Rng, case: u64, out: &mut CaseOut) {
+    let stream = "coded-builder-models";
+    let mut cs = crate::coded::random_coded(rng, 8, 4);
+    let m = cs.funcs.len();
+    let n = m + rng.int(1, 12);
+    cs.x = (0..n).map(|i| 0.37 * i as f64 + rng.range(0.0, 0.1)).collect();
+    let np = cs.names.len();
+    let s = *rng.pick(&[1usize, 1, 2, 3]);
+    let draw = |rng: &mut Rng| -> Vec<f64> { (0..np).map(|i| 0.3 + 0.71 * i as f64 + rng.range(0.0, 0.2)).collect() };
+    let alpha0 = draw(rng);
+    let y = Mat::from_fn(n, s, |_, _| rng.normal() * 3.0);
+    let w = if rng.chance(0.5) { Some((0..n).map(|_| rng.range(0.3, 2.0) * rng.sign()).collect()) } else { None };
+    let spec = ProblemSpec { model: ModelKind::Coded(cs), alpha0, y, w, eps: None, mrhs: s > 1 || rng.chance(0.3), par: rng.chance(0.4) };
+    let Ok(mut prob) = build_problem_auto::<T>(&spec) else {
+        violation(out, stream, case, "valid problem rejected by the builder", spec.to_json());
+        return;
+    };
+    out.seen("coded_arities", if let ModelKind::Coded(c) = &spec.model { format!("{}", c.funcs.iter().map(|f| f.params.len()).max().unwrap_or(0)) } else { String::new() });
+    for step in 0..3 {
+        let alpha: Vec<f64> = prob.params().iter().map(|v| v.w()).collect();
+        if let (Some(c), Some(j)) = (prob.coeffs(), prob.jacobian()) {
+            if !check_jacobian::<T>(out, stream, case, &spec, &alpha, &widen(&c), &widen(&j), &format!("coded model, state {step}")) {
+                return;
+            }
+        }
+        let fresh = draw(rng);
+        let a = next_alpha(rng, &alpha, fresh);
+        prob.set_params(&DVector::from_iterator(a.len(), a.iter().map(|v| T::of(*v))));
+    }
+}
+
 fn objective_at<T: Sc>(spec: &ProblemSpec, alpha: &[f64]) -> Option<f64> {
     let mut s = spec.clone();
     s.alpha0 = alpha.to_vec();
@@ -274,11 +308,12 @@ fn fit_case<T: Sc>(rng: &mut Rng, case: u64, out: &mut CaseOut) {
 }
 
 pub fn run(ctx: &Ctx) {
-    ctx.rule("states: zoo problems (Z2/Z3 share parameters between functions and have two parameters per function) with 1..7 columns, six weight classes, f32/f64, four flavours, alpha 0.4x..2.5x around the generating values; every Jacobian column block is compared with -(I-QQ^T)·W·D_k·c_s (Q from the oracle's Householder QR) and must be orthogonal to range(W·Phi); each derivative call in turn is made to fail and must yield no Jacobian. gradient: 2J^Tr against Richardson central differences of |r|^2 (f64, kappa<=1e4). fit-exchanges: every Jacobian handed to the optimizer. Only states with numerically full column rank (kappa <= 1e8 / 1e3 for f32) are in the property's domain. non-trivial = non-zero Jacobian and (S>1 or non-constant weights)");
+    ctx.rule("[coded-builder-models: builder-made models over position-coded closures of arity 1..8 on arbitrary ordered subsets of the model parameters (the C16 family) inside problems of all four flavours, 3 states each, same reference] states: zoo problems (Z2/Z3 share parameters between functions and have two parameters per function) with 1..7 columns, six weight classes, f32/f64, four flavours, alpha 0.4x..2.5x around the generating values; every Jacobian column block is compared with -(I-QQ^T)·W·D_k·c_s (Q from the oracle's Householder QR) and must be orthogonal to range(W·Phi); each derivative call in turn is made to fail and must yield no Jacobian. gradient: 2J^Tr against Richardson central differences of |r|^2 (f64, kappa<=1e4). fit-exchanges: every Jacobian handed to the optimizer. Only states with numerically full column rank (kappa <= 1e8 / 1e3 for f32) are in the property's domain. non-trivial = non-zero Jacobian and (S>1 or non-constant weights)");
     ctx.assume("reference mismatches explained by the measured reconstruction error of the dependency's SVD are attributed to KF-1");
     let t = ctx.tier;
     let b = t.pick(30.0, 900.0);
     ctx.run_cases("states", t.pick(10000, 400000), b, |r, c, o| if c % 3 == 0 { states_case::<f32>(r, c, o) } else { states_case::<f64>(r, c, o) });
     ctx.run_cases("gradient", t.pick(2000, 80000), b, gradient_case);
     ctx.run_cases("fit-exchanges", t.pick(1500, 64000), b, |r, c, o| if c % 4 == 0 { fit_case::<f32>(r, c, o) } else { fit_case::<f64>(r, c, o) });
+    ctx.run_cases("coded-builder-models", t.pick(4000, 120000), b, |r, c, o| if c % 3 == 0 { coded_case::<f32>(r, c, o) } else { coded_case::<f64>(r, c, o) });
 }
